@@ -4,6 +4,9 @@ import Heathcliff.Proofs.C20D
 import Heathcliff.Proofs.C20F
 import Heathcliff.Proofs.C20G
 import Heathcliff.Proofs.C20H
+import Heathcliff.Proofs.C20I
+import Heathcliff.Proofs.C20J
+import Heathcliff.Proofs.C20K
 
 /- Property C20: homomorphic matrix products and convolutions equal plaintext ones, all shapes.
    Property theorems only (proofs are the helper lemmas of Heathcliff/Proofs/C20*.lean). -/
@@ -128,6 +131,25 @@ theorem conv2d_sum_channels {R : Type} [CommRing R] (f : Nat → R) (ci cib : Na
     ∑ g ∈ range (ceilDiv ci cib), ∑ ic ∈ range (min ci (g * cib + cib) - g * cib), f (g * cib + ic) = ∑ ic ∈ range ci, f ic :=
   HC.c20_sum_blocks f cib ci hcib
 
+/-- **2-D convolution, whole tensor** (any commutative ring, ALL shapes with the kernel inside the image, ALL block tuples with positive
+    blocks, kernel inside the tile and `b·ci·co·h·w ≤ n` — the bundle `c20_CvOK`): encode the image tiles (`cvEncodeInputs`: batch
+    blocks × overlapping tiles × input-channel blocks, flattened as in the code) and the weights (`cvEncodeWeights`), multiply and
+    accumulate over the input-channel blocks in S[X]/(X^n + 1) (`c20_cvEval`), decode (`cvDecodeOutputs`): the result is the VALID
+    cross-correlation `y[b][c][i][j] = Σ_ic Σ_ki Σ_kj x[b][ic][i+ki][j+kj]·w[c][ic][ki][kj]` (`c20_xcorr`), row major.  Includes the
+    tile / flatten index arithmetic (group index ↔ (batch block, tile row, tile column)) and the coverage of every output entry. -/
+theorem conv2d_whole : type_of% @HC.c20_conv2d_whole := @HC.c20_conv2d_whole
+
+/-- ... for the block tuple the model's search returns: every admissible shape (positive dimensions ≤ 2^15, kernel inside the image,
+    `kh·kw ≤ N`), every objective -/
+theorem conv2d_search : type_of% @HC.c20_conv2d_search := @HC.c20_conv2d_search
+
+/-- the index map of `decrypt_outputs_*` (conv2d) over ALL groups and output-channel blocks, for any family of decoded polynomials -/
+theorem conv2d_decode_whole : type_of% @HC.c20_cvDecode_spec := @HC.c20_cvDecode_spec
+
+/-- `encode_inputs_*` / `encode_weights_*` (conv2d) over ALL blocks are total; the input groups are the flattened grid -/
+theorem conv2d_encode_inputs_whole : type_of% @HC.c20_cvEncodeInputs_ok := @HC.c20_cvEncodeInputs_ok
+theorem conv2d_encode_weights_whole : type_of% @HC.c20_cvEncodeWeights_ok := @HC.c20_cvEncodeWeights_ok
+
 /-- **output re-encoding is the inverse of output decoding** (block level, both for any coefficient type): `encode_outputs_*` writes
     entry (db, dj) of a block exactly at the position `decrypt_outputs_*` reads for it, distinct entries go to distinct positions
     inside the polynomial, and every other coefficient is zero -/
@@ -164,13 +186,28 @@ theorem encode_weights_whole : type_of% @HC.c20_encodeWeights_ok := @HC.c20_enco
     `b·i·o ≤ n`, any coefficient type) -/
 theorem outputs_encode_decode_whole : type_of% @HC.c20_outputs_encode_decode := @HC.c20_outputs_encode_decode
 
-/-- the whole-matrix form for BOTH packing modes: kept as a statement.  The non-packed half is `outputs_encode_decode_whole`
-    (proved); the LWE-packed layout (`h.pack = true`) is covered by the correspondence (`mm_enco`, `mm_dec` model lines and the
-    `mm_outputs_roundtrip` runs through real encryption on every shape) -/
+/-- **outputs: decode ∘ encode = id over the whole matrix WITH LWE packing** (`h.pack = true`): output block `c = d1·obc + d2` is written
+    into packed polynomial `c / ib` at slot offset `c mod ib` and read back from there; every shape, every positive block triple with
+    `b·i·o ≤ n`, any coefficient type -/
+theorem outputs_encode_decode_packed : type_of% @HC.c20_outputs_encode_decode_packed := @HC.c20_outputs_encode_decode_packed
+
+/-- one packed output polynomial as a function of the position (total; reading at the decoder's position returns the entry) -/
+theorem packed_poly_spec : type_of% @HC.c20_packedPoly_spec := @HC.c20_packedPoly_spec
+
+/-- the index map of `decrypt_outputs_*` over ALL blocks in BOTH packing modes -/
+theorem decode_outputs_gen : type_of% @HC.c20_decodeOutputs_gen := @HC.c20_decodeOutputs_gen
+
+/-- the whole-matrix form for BOTH packing modes (all blocks, through `encodeOutputs` / `decodeOutputs`) -/
 def OutputsEncodeDecodeStatement : Prop :=
   ∀ (h : Helper) (y : Nat → Nat), 0 < h.bb → 0 < h.ib → 0 < h.ob → h.bb * h.ib * h.ob ≤ h.n → (h.pack = true → h.n % h.ib = 0) →
     ∃ polys dec, encodeOutputs h 0 y (h.bs * h.od) = .ok polys ∧ decodeOutputs h 0 polys = .ok dec ∧
       ∀ k, k < h.bs * h.od → dec.getD k 0 = y k
+
+/-- ... PROVED (formerly a statement only); the divisibility hypothesis is not needed -/
+theorem OutputsEncodeDecodeStatement_proof : OutputsEncodeDecodeStatement := by
+  intro h y hbb hib hob hfit _
+  obtain ⟨polys, dec, h1, h2, _, h4⟩ := HC.c20_outputs_encode_decode_both (0 : Nat) h y hbb hib hob hfit
+  exact ⟨polys, dec, h1, h2, h4⟩
 
 /-- selected-terms transport: the transported coefficient set (`output_terms`) contains every position the decoder reads -/
 theorem terms_transport (h : Helper) (db dj : Nat) (hdb : db < h.bb) (hdj : dj < h.ob) : outPos h db dj ∈ outputTerms h :=
@@ -189,14 +226,57 @@ theorem bolt_rot_bsgs {α : Type} (n g a b : Nat) (v : Nat → α) (i : Nat) :
 theorem bolt_rot_mod {α : Type} (n s : Nat) (v : Nat → α) (i : Nat) : c20_rot n (s % n) v i = c20_rot n s v i :=
   HC.c20_rot_mod n s v i
 
-/-- End-to-end statement for a BOLT helper, as a schema over its (unmodelled) slot-level pipeline `run m r n N t x w`: for every
-    shape the decoded result is the matrix product modulo t.  NOT proved: the encode maps / rotation schedules of `bolt_cp`,
-    `bolt_cc_cr`, `bolt_cc_dc` are not modelled; the three helpers are covered by the end-to-end runs of the harness (exhaustive small
-    shapes at N = 8, 16, 32 and random larger shapes; labelled tests). -/
-def BoltStatement (run : Nat → Nat → Nat → Nat → Nat → (Nat → Nat) → (Nat → Nat) → Option (Nat → Nat)) : Prop :=
-  ∀ m r n N t (x w : Nat → Nat), 1 ≤ m → 1 ≤ r → 1 ≤ n → 2 ≤ t →
-    ∃ y, run m r n N t x w = some y ∧
-      ∀ i j, i < m → j < n → y (i * n + j) = (∑ k ∈ range r, (x (i * r + k) % t) * (w (k * n + j) % t)) % t
+/-! ### BOLT: the MODEL of the three helpers (`Model/Matmul.lean`: encode maps, rotation schedules on slot vectors, decode maps) is
+     compared with the code bit for bit (`bolt_*_encx/encw/enco/run` lines).  Proved about the model: the slot actions and the
+     baby-step / giant-step algebra of `bolt_cp`.  The end-to-end statements below are concrete statements about the model
+     (they replace the former schema `BoltStatement`); they are NOT proved. -/
+
+/-- `rotate_rows` by `a` whole columns, read at column `c`, entry `j` (slot = column·gap + entry, N = 2·half·gap) -/
+theorem bolt_rotRows_col : type_of% @HC.c20_rotRows_col := @HC.c20_rotRows_col
+/-- `rotate_columns`, read at column `c` -/
+theorem bolt_swapRows_col : type_of% @HC.c20_swapRows_col := @HC.c20_swapRows_col
+
+/-- **baby steps of `bolt_cp`**: after `ir` steps of the model's input-rotation loop, column `c` of the rotated input polynomial
+    holds the original column `boltShift half c ir` (the index `a_shift_index` that `encode_weights` assumes) -/
+theorem bolt_cp_baby_steps : type_of% @HC.c20_boltCpRotIn_col := @HC.c20_boltCpRotIn_col
+
+/-- **baby-step / giant-step re-indexing**: as the total rotation runs over all `s = 2·half` values, the column read at column `k`
+    runs over all columns exactly once: `Σ_rot f(boltShift half k rot) = Σ_c f(c)` -/
+theorem bolt_bsgs_sum : type_of% @HC.c20_bolt_bsgs_sum := @HC.c20_bolt_bsgs_sum
+
+theorem bolt_shift_lt : type_of% @HC.c20_boltShift_lt := @HC.c20_boltShift_lt
+theorem bolt_shift_split : type_of% @HC.c20_boltShift_split := @HC.c20_boltShift_split
+theorem bolt_shift_step : type_of% @HC.c20_shift_step := @HC.c20_shift_step
+
+/-- End-to-end statement for `MatmulBoltCp` over the MODEL, any commutative ring (S = ZMod t: the product modulo t): NOT proved -/
+def BoltCpStatement : Prop :=
+  ∀ (S : Type) [CommRing S] (m r n N : Nat) (h : BoltCp) (x w : Nat → S), BoltCp.new m r n N = .ok h → (∃ e, N = 2^e) →
+    ∃ X W Y out, boltCpEncodeInputs h 0 x (m * r) = .ok X ∧ boltCpEncodeWeights h 0 w (r * n) = .ok W ∧
+      boltCpMultiply h (· + ·) (· * ·) 0 X W = .ok Y ∧ boltCpDecodeOutputs h 0 Y = .ok out ∧
+      ∀ i j, i < m → j < n → out.getD (i * n + j) 0 = ∑ k ∈ range r, x (i * r + k) * w (k * n + j)
+
+/-- ... for `MatmulBoltCcCr`: NOT proved -/
+def BoltCcCrStatement : Prop :=
+  ∀ (S : Type) [CommRing S] (m r n N : Nat) (h : BoltCc) (x w : Nat → S), BoltCc.newCr m r n N = .ok h → (∃ e, N = 2^e) →
+    ∃ X W Y out, boltCrEncodeInputs h 0 x (m * r) = .ok X ∧ boltCrEncodeWeights h 0 w (r * n) = .ok W ∧
+      boltCrMultiply h (· + ·) (· * ·) 0 X W = .ok Y ∧ boltCrDecodeOutputs h 0 Y = .ok out ∧
+      ∀ i j, i < m → j < n → out.getD (i * n + j) 0 = ∑ k ∈ range r, x (i * r + k) * w (k * n + j)
+
+/-- ... for `MatmulBoltCcDc`: NOT proved -/
+def BoltCcDcStatement : Prop :=
+  ∀ (S : Type) [CommRing S] (m r n N : Nat) (h : BoltCc) (x w : Nat → S), BoltCc.newDc m r n N = .ok h → (∃ e, N = 2^e) →
+    ∃ X W Y out, boltDcEncodeInputs h 0 x (m * r) = .ok X ∧ boltDcEncodeWeights h 0 w (r * n) = .ok W ∧
+      boltDcMultiply h (· + ·) (· * ·) 0 X W = .ok Y ∧ boltDcDecodeOutputs h 0 Y = .ok out ∧
+      ∀ i j, i < m → j < n → out.getD (i * n + j) 0 = ∑ k ∈ range r, x (i * r + k) * w (k * n + j)
+
+/-- the model's `bolt_cp` pipeline on a concrete instance (N = 8, 3×2·2×3 over ℤ/17): the schedule computes the product -/
+example : (do
+    let h ← BoltCp.new 3 2 3 8
+    let X ← boltCpEncodeInputs h 0 (fun i => [1, 2, 3, 4, 5, 6].getD i 0) 6
+    let W ← boltCpEncodeWeights h 0 (fun i => [7, 8, 9, 10, 11, 12].getD i 0) 6
+    let Y ← boltCpMultiply h (fun a b => (a + b) % 17) (fun a b => (a * b) % 17) 0 X W
+    boltCpDecodeOutputs h 0 Y) = .ok #[27 % 17, 30 % 17, 33 % 17, 61 % 17, 68 % 17, 75 % 17, 95 % 17, 106 % 17, 117 % 17] := by
+  decide +kernel
 
 /-! non-vacuity: concrete shapes satisfy the hypotheses and the searches return the blocks the code returns -/
 example : mmSearch 8 3 4 2 .cipherPlain = ⟨3, 1, 2, 5⟩ := by decide
@@ -211,10 +291,16 @@ example (x w : Nat → ℤ) := cheetah_coeff ⟨2, 4, 2, 1, 3, 2, 8, false⟩ x 
   0 1 (by decide) (by decide)
 /-- the hypotheses of `cheetah_matmul_whole` are satisfiable (the blocks (3,1,2) of the 3×4·4×2 product at N = 8), and so are those of
     `cheetah_matmul_search` -/
-example (x w : Nat → ℤ) := cheetah_matmul_whole ⟨3, 4, 2, 3, 1, 2, 8, false⟩ x w (by decide) (by decide) (by decide) (by decide)
+example (x w : Nat → ℤ) := cheetah_matmul_whole ⟨3, 4, 2, 3, 1, 2, 8, false⟩ x w (by decide) (by decide) (by decide)
   (by decide) rfl
 example (x w : Nat → ℤ) := cheetah_matmul_search 3 4 2 8 .cipherPlain (by decide) (by decide) (by decide) (by decide)
   (by decide) x w
+/-- the hypotheses of `conv2d_whole` are satisfiable (the witness shape of the pinned defect with its searched blocks (1,16,4,1,1):
+    three overlapping tiles in height) -/
+example (x w : Nat → ℤ) := conv2d_whole ⟨⟨1, 1, 1, 40, 4, 3, 3⟩, 1, 16, 4, 1, 1, 64⟩ x w
+  ⟨by decide, by decide, by decide, by decide, by decide, by decide, by decide, by decide⟩ (by decide) (by decide)
+example (x w : Nat → ℤ) := conv2d_search ⟨2, 3, 2, 6, 5, 3, 2⟩ 64 .cipherPlain (by decide) (by decide) (by decide) (by decide)
+  (by decide) (by decide) (by decide) (by decide) (by decide) x w
 /-- the hypotheses of `conv2d_coeff` are satisfiable: the witness shape of the pinned defect (image 40×4, kernel 3×3, N = 64,
     blocks (1,16,4,1,1)), first tile, last output row / column of the tile -/
 example (x w : Nat → ℤ) := conv2d_coeff ⟨⟨1, 1, 1, 40, 4, 3, 3⟩, 1, 16, 4, 1, 1, 64⟩ x w (by decide) (by decide) (by decide) (by decide)
